@@ -97,5 +97,6 @@ LEVEL_TEXT = ('Generated-input search: crop(inverse(forward(e_i))) = e_i for eve
               'configuration (operator identity, images <= 192 pixels) and for dense inputs up to 40x40, over all filter '
               'pairs, J <= 5 and sizes that are odd or not multiples of 4 on either axis; output extent and the values on '
               'the even extension are compared with the reference.')
+LEVEL_TEXT += (" Also generated: a second image passing through the forward module before the first pyramid is inverted, other-precision calls earlier in the modules' lives, autograd contexts.")
 LEVEL_NOTE = 'Sampled configurations; float64 tolerance 1e-9 relative to max|x|; reference package used for extent/extension.'
 TECHNIQUE = 'property-based testing (Hypothesis), round-trip oracle on extracted operators'
